@@ -37,8 +37,8 @@ def handle : List Sexp → String
     match parseExpr e with
     | none => "bad-request"
     | some e =>
-      match infer true [] e 0 with
-      | .ok (_, τ, _) => "(ok " ++ showTy (canon τ) ++ ")"
+      match infer true [] e Subst.id 0 with
+      | .ok (τ, S, _) => "(ok " ++ showTy (canon (τ.subst S)) ++ ")"
       | .error .fuel => "fuel"
       | .error _ => "err"
   | _ => "bad-request"
